@@ -16,6 +16,7 @@ Inductive ty :=
 | TList (t : ty) | TDict (t : ty)      (* List[t] / Dict[str, t] *)
 | TOpt (t : ty)                          (* Optional[t] = t | None — handled by the Union hook *)
 | TData (c : N)                          (* a dataclass, by id in the class table *)
+| TEnum (vals : list str)                (* class E(str, Enum) with these values; a member is held as VStr value *)
 | TFwd (c : N).                          (* an unresolved ForwardRef("C") left inside a generic (List["C"]):
                                             cattrs has no hook for it (finding F03c) *)
 
@@ -59,6 +60,7 @@ Fixpoint ty_eqb (a b : ty) : bool :=
   | TDate, TDate | TUuid, TUuid | TTime, TTime | TAny, TAny => true
   | TList x, TList y | TDict x, TDict y | TOpt x, TOpt y => ty_eqb x y
   | TData c, TData d | TFwd c, TFwd d => N.eqb c d
+  | TEnum x, TEnum y => list_eqb str_eqb x y
   | _, _ => false
   end.
 
@@ -224,6 +226,7 @@ Section Conv.
     | TDatetime => structure_datetime s
     | TDate => match date_parse s with Some c => Ok (VDate c) | None => Err end
     | TUuid | TTime | TFwd _ => Err              (* StructureHandlerNotFoundError (F03a, F03c) *)
+    | TEnum vals => if mem_str s vals then Ok (VStr s) else Err    (* E(value): ValueError when not a member *)
     | TAny => Ok (VStr s)
     | TList X => if eager_bad X then Err
                  else bind (map_result (fun c => structure_str X [c]) s) (fun l => Ok (VList l))
@@ -311,6 +314,7 @@ Section Conv.
     | TBytes => Ok (inject j)          (* structure_with_base64_bytes returns non-str data unchanged *)
     | TDatetime | TDate => Err         (* TypeError("Cannot convert ...") *)
     | TUuid | TTime | TFwd _ => Err
+    | TEnum _ => Err                   (* E(5), E(None), E([..]) : ValueError / TypeError (unhashable) *)
     | TAny => Ok (inject j)
     | TList X =>
         if eager_bad X then Err else
@@ -378,6 +382,7 @@ Section Conv.
     | TStr | TInt | TFloat | TBool | TUuid | TTime | TFwd _ => project v  (* identity *)
     | TBytes => match v with VBytes b => Ok (JStr (b64enc b)) | _ => Err end
     | TDatetime | TDate => match v with VDatetime s | VDate s => Ok (JStr s) | _ => Err end
+    | TEnum _ => match v with VStr s => Ok (JStr s) | _ => Err end          (* member.value *)
     | TAny =>
         match v with
         | VNone => Ok JNull | VBool b => Ok (JBool b) | VInt z => Ok (JInt z) | VFloat z => Ok (JFloat z)
@@ -467,6 +472,7 @@ Section Conv.
   | I_bytes b : inst_ok TBytes (VBytes b)
   | I_dt s : dt_parse s = Some s -> replace_Z s = s -> inst_ok TDatetime (VDatetime s)
   | I_date s : date_parse s = Some s -> inst_ok TDate (VDate s)
+  | I_enum vals s : mem_str s vals = true -> inst_ok (TEnum vals) (VStr s)
   | I_any j : inst_ok TAny (inject j)
   | I_list X l : Forall (inst_ok X) l -> inst_ok (TList X) (VList l)
   | I_dict X kvs : NoDup (map fst kvs) -> Forall (fun kv => inst_ok X (snd kv)) kvs ->
